@@ -106,7 +106,7 @@ _add("shl1.ab shl1.alias", "shl1", "shl1", "1", 1, 1)
 _add("shr1.zab", "shr1", "shr1", "1", 2, 1)
 _add("shr1.ab", "shr1", "shr1", "1", 1, 1)
 _add("shl_ext.abd", "shl_ext", "shl_ext", "sh64x", 1, 1, flags="w")
-_add("norm.d", "norm", "norm", "1n", 1, 1)
+_add("norm.d", "norm_scan", "norm", "1n", 1, 1)
 # --- part 2: division
 _add("div.qrab div.alias", "div", "div", "div", 2, 2)
 _add("div.q div.op/ div.op/=", "div", "div", "div", 1, 2)
@@ -121,15 +121,15 @@ _add("div32.qrr", "div32", "div32", "div32", 3, 2)
 _add("mod_n.abn", "mod_n", "mod_n", "modn", 1, 2, flags="w")
 # --- part 2: gcd, inverses, powers
 _add("gcd.abc gcd.bc", "gcd", "gcd", "gcd", 1, 2, flags="heavy")
-_add("inv_mod.abc", "inv_mod", "inv_mod", "inv", 1, 2, flags="heavy")
+_add("inv_mod.abc", "inv_mod_doc", "inv_mod", "inv", 1, 2, flags="heavy")
 _add("bezout_mod.xycd", "bezout_mod", "bezout_mod", "bez", 2, 2, flags="heavy")
-_add("exp_mod.abcn", "exp_mod", "exp_mod", "exp", 1, 2, flags="vheavy")
+_add("exp_mod.abcn", "exp_mod_scan", "exp_mod", "exp", 1, 2, flags="vheavy")
 _add("exp_mod_w.abcn", "exp_mod_w", "exp_mod", "expw", 1, 2, flags="heavy")
 _add("exp_mod_w.u32", None, "exp_mod", "expw32", 1, 2, flags="heavy")
 _add("arazi_qi.ua", "arazi_qi", "arazi_qi", "odd", 1, 2)
 # --- part 2: conversions
 _add("mpz_to_ruint.ab mpz_to_ruint.t", "mpz_to_ruint", "mpz_to_ruint", "mpzu", 1, 2)
-_add("mpz_to_ruint.str", "mpz_to_ruint", "mpz_to_ruint", "mpzu", 1, 2, flags="k7")
+_add("mpz_to_ruint.str", "mpz_to_ruint", "mpz_to_ruint", "mpzu", 1, 2)
 _add("ruint_to_mpz.ab ruint_to_mpz.t", None, "ruint_to_mpz", "1", 1, 2)
 _add("ruint_to_mpz.round", None, "ident", "1", 1, 2)
 _add("s.mpz_to_rint s.mpz_to_rint.t", "mpz_to_rint", "mpz_to_rint", "mpzs", 1, 2)
@@ -170,7 +170,7 @@ _add("s.sub_w.u64", None, "sub_w1", "1sw", 1, 2)
 _add("s.mul_w.abc s.mul_w.op* s.mul_w.op*r s.mul_w.op*=", None, "smul_si", "1ssi", 1, 2)
 _add("s.mod_n.a", None, "smod_n1", "smodn1", 1, 2)
 _add("s.mod_n.abn", "smod_n", "smod_n", "smodn", 1, 2, flags="w")
-_add("s.inv_mod", "sinv_mod", "sinv_mod", "sinv", 1, 2, flags="heavy")
+_add("s.inv_mod", "sinv_mod_doc", "sinv_mod", "sinv", 1, 2, flags="heavy")
 _add("s.lmul.a", "slmul", "slmul", "2s", 1, 2, flags="w")
 _add("s.lsquare.a", "slsquare", "slsquare", "1s", 1, 2, flags="w")
 _add("s.sext", "sext", "sext", "1s", 1, 2, flags="w")
@@ -181,6 +181,8 @@ _add("conv.to_rint", "mpz_to_rint_into", "conv_to_rint", None, 1, 6)
 _add("conv.from_ruint", "ruint_to_mpz_into", "conv_from_ruint", None, 3, 6)
 _add("conv.from_rint", "rint_to_mpz_into", "conv_from_rint", None, 3, 6)
 _add("conv.copies", None, "conv_copies", None, 1, 6)
+_add("conv.dec", "display_dec", "conv_dec", None, 2, 6)
+VARIANTS["conv.dec"]["mres"] = 1
 _add("conv.rint_from_integer", None, "conv_to_rint", None, 1, 6)
 _add("conv.widen", "sext", "conv_widen", None, 2, 6, flags="w")
 VARIANTS["conv.to_ruint"]["mboth"] = True      # the model returns (with reset, without reset): both must equal the implementation
@@ -199,7 +201,7 @@ NTYPES = {"u8": (3, 0, 2**8 - 1, False, 8), "u16": (3, 0, 2**16 - 1, False, 16),
           "dbl": (5, -2**53, 2**53, True, 53)}
 # op -> (model op, result tokens compared with the oracle, tokens compared with the model)
 NOPS = {"addf": ("add_w", 2, 2), "addo": ("op_add_si", 1, 1), "subf": ("sub_w", 2, 2), "subo": ("op_sub2", 2, 2),
-        "mulf": ("lmul_w", 2, 2), "mulo": ("op_mul_si", 1, 1), "divf": ("div_w", 2, 2), "divo": ("op_div_si", 1, 1),
+        "mulf": ("lmul_w", 2, 2), "mulo": ("op_mul_si", 1, 1), "divf": ("div_w", 2, 2), "divo": ("op_div_n", 1, 1),
         "modo": ("op_mod_w", 1, 1), "sdivo": ("sdiv_q_si", 1, 1), "cmp": ("cmp_n", 2, 2), "bit": ("bit_n", 4, 3),
         "saddf": ("op_addsub_si", 2, 2), "sremo": ("sdiv_r", 1, 1), "ctor": ("ctor_n", 3, 1), "shl": ("shl_cnt", 1, 1), "shr": ("shr2_cnt", 2, 2), "expw": ("exp_mod_n", 1, 1)}
 for _ty, (_part, _lo, _hi, _sg, _bits) in NTYPES.items():
@@ -326,8 +328,10 @@ def oracle(spec, K, a):
     if spec == "gcd":
         return [math.gcd(a[0], a[1])]
     if spec == "inv_mod":
-        if a[1] == 0 or math.gcd(a[0], a[1]) != 1:
+        if a[1] == 0:
             return None
+        if math.gcd(a[0], a[1]) != 1:
+            return [0]                              # ruinvmod.h: "if b is not invertible, a = 0"
         return [pow(a[0], -1, a[1])]
     if spec == "bezout_mod":
         if a[0] < 2 or a[1] < 2 or math.gcd(a[0], a[1]) != 1:
@@ -370,8 +374,10 @@ def oracle(spec, K, a):
         return None if sn <= 0 else [sval(a[0], K + 1) % sn]
     if spec == "sinv_mod":
         sb, sc = sval(a[0], K), sval(a[1], K)
-        if sc <= 1 or math.gcd(sb, sc) != 1 or sb <= -sc:
+        if sc <= 1 or sb <= -sc:
             return None
+        if math.gcd(sb, sc) != 1:
+            return [0]                              # documented value for a non-invertible operand
         return [pow(sb % sc, -1, sc)]
     if spec == "slmul":
         return [(sval(a[0], K) * sval(a[1], K)) % (Bk * Bk)]
@@ -389,6 +395,8 @@ def oracle(spec, K, a):
         return [sval(a[1] % Bk, K), 0, 0]
     if spec == "conv_copies":
         return [a[1]]
+    if spec == "conv_dec":
+        return [a[1] % Bk, sval(a[1] % Bk, K)]
     if spec == "conv_widen":
         return [a[1] % Bk, sval(a[1] % Bk, K) % (Bk * Bk)]
     raise KeyError(spec)
@@ -882,6 +890,14 @@ def gen_args(rng, K, gen, spec):
                 f0, f1 = f1, f0 + f1
             a, b = f1, f0
         return [a, b]
+    if gen == "inv" and rng.chance(1, 4):
+        # NOT invertible: common factor 2, 3, a limb, a half-size value; b = 0; b = c; b a multiple of c
+        g = rng.choice([2, 3, W64 - 1, W64, (1 << (n // 2)) + 1, 6])
+        c = (g * max(2, g_int(rng, K) >> rng.range(n // 2 + 8, n - 2))) % Bk or 4
+        b = rng.choice([0, c, (g * (g_int(rng, K) % (c // g or 1))) % c, g % c, (c // g) % c])
+        if math.gcd(b, c) == 1:
+            b, c = 2, 4
+        return [b, c]
     if gen == "inv":
         b, c = g_coprime_pair(rng, K)
         if rng.chance(1, 2):
@@ -951,6 +967,15 @@ def gen_args(rng, K, gen, spec):
         if rng.chance(1, 2):
             a = (-a) % (1 << (1 << KK))
         return [a, nn]
+    if gen == "sinv" and rng.chance(1, 4):
+        g = rng.choice([2, 3, 6, W64 - 1])
+        c = max((g * max(2, g_int(rng, K) >> rng.range(n // 2 + 8, n - 2))) % h, 2 * g)
+        b = (g * rng.below(c // g)) % c
+        if math.gcd(b, c) == 1:
+            b, c = 2, 4
+        if rng.chance(1, 2) and b:
+            b = (b - c) % Bk
+        return [b, c]
     if gen == "sinv":
         b, c = g_coprime_pair(rng, K)
         c = max(c % h, 2)
@@ -989,7 +1014,7 @@ def fmt_arg(x):
 
 
 def fmt_exp(spec, vals):
-    if spec in ("conv_from_ruint", "conv_from_rint") or spec.startswith("nat:cmp:"):
+    if spec in ("conv_from_ruint", "conv_from_rint", "conv_dec") or spec.startswith("nat:cmp:"):
         return [str(v) for v in vals]
     if spec.startswith("nat:ctor:") and len(vals) == 3 and vals[2] is None:
         return fmt_exp("", vals[:2]) + ["x"]
@@ -998,7 +1023,8 @@ def fmt_exp(spec, vals):
     return [tok(hex(v)[2:]) if v >= 0 else "-" + tok(hex(-v)[2:]) for v in vals]
 
 
-SITES = {"conv_to_rint:conv.rint_from_integer": "RecInt::rint<K>::rint(const Givaro::Integer&)",
+SITES = {"inv_mod": "RecInt::inv_mod", "sinv_mod": "RecInt::inv_mod",
+         "conv_to_rint:conv.rint_from_integer": "RecInt::rint<K>::rint(const Givaro::Integer&)",
          "scmp_si": "RecInt::cmp(rint<K>, signed word)", "sadd_si": "RecInt::operator+=(rint<K>, signed word)",
          "ssub_si": "RecInt::operator-=(rint<K>, signed word)", "smul_si": "RecInt::operator*(rint<K>, signed word)",
          "sshr": "RecInt::operator>>(rint<K>, count)", "slsquare": "RecInt::lsquare(rint<K+1>, rint<K>)"}
@@ -1040,6 +1066,10 @@ def klass_of(v, spec, K, a):
         return "a<0" if sval(a[0], K) < 0 else "K=%d" % K
     if spec == "exp_mod":
         return "n=1,c=0" if a[2] == 1 and a[1] == 0 else "K=%d" % K
+    if spec == "inv_mod":
+        return "gcd!=1" if a[1] and math.gcd(a[0], a[1]) != 1 else "K=%d" % K
+    if spec == "sinv_mod":
+        return "gcd!=1" if math.gcd(sval(a[0], K), sval(a[1], K)) != 1 else "K=%d" % K
     return "K=%d" % K
 
 
@@ -1087,13 +1117,16 @@ def udiv_branches(n1, n0, d):
 
 def div32_branches(beta, a2, a1, a0, b1, b0, limb):
     out = []
+    fn = "div_3_2<6>" if limb else "div_3_2<K>"          # two different function bodies (rudiv.h limb specialisation / generic)
     if a2 < b1:
         out.append("div_3_2:estimate-by-2-by-1")
         if limb:
             out += udiv_branches(a2, a1, b1)
     else:
         out.append("div_3_2:q=B-1" + ("+carry" if a1 + b1 >= beta else ""))
-    out.append("div_3_2:%d-corrections" % d32_corrections(beta, a2, a1, a0, b1, b0))
+    nc = d32_corrections(beta, a2, a1, a0, b1, b0)
+    out.append("div_3_2:%d-corrections" % nc)
+    out.append("%s:%d-corrections" % (fn, nc))
     return out
 
 
@@ -1211,7 +1244,8 @@ def branches_of(v, spec, K, a):
 # branches that every run is expected to reach (reported in the evidence when a run misses one)
 EXPECTED_BRANCHES = [
     ("div32", "div_3_2:2-corrections"), ("div32", "div_3_2:1-corrections"), ("div32", "div_3_2:0-corrections"),
-    ("div32", "div_3_2:q=B-1"), ("div32", "div_3_2:q=B-1+carry"), ("div32", "udiv.high-half:1-corrections"),
+    ("div32", "div_3_2<6>:2-corrections"), ("div32", "div_3_2<K>:2-corrections"), ("div32", "div_3_2<6>:1-corrections"),
+    ("div32", "div_3_2<K>:1-corrections"), ("div32", "div_3_2:q=B-1"), ("div32", "div_3_2:q=B-1+carry"), ("div32", "udiv.high-half:1-corrections"),
     ("div32", "udiv.low-half:1-corrections"), ("div21", "second:div_3_2:2-corrections"), ("div21", "udiv.high-half:2-corrections"), ("div32", "udiv.high-half:2-corrections"),
     ("exp_mod", "exponent with a zero limb below a non-zero limb"), ("exp_mod", "modulus 1"),
     ("shl", "defect>0"), ("shl", "defect<0"), ("shl", "defect=0"), ("shl", "d>size"), ("shl", "d=1"), ("shl", "limb:d>=64"),
@@ -1384,6 +1418,10 @@ def directed_cases(rng, tier):
                 out.append(("conv.from_ruint", K, [pm, sv % Bk], True))
                 out.append(("conv.from_rint", K, [pm, sv % Bk], True))
                 out.append(("conv.from_rint", K, [pm, (-sv) % Bk], True))
+        # decimal output: 0, one digit, powers of ten around the limb size, the longest output (all ones), values whose division
+        # by 10 leaves zero limbs; the model's digit loop is compared for K >= 7 (operator<< of ruint<6> prints the limb directly)
+        for sv in [0, 7, 10, 10**19, 10**20 - 1, Bk - 1, Bk >> 1, (Bk >> 1) - 1, 10 ** (len(str(Bk)) - 1), W64, (1 << (n // 2)) * 10]:
+            out.append(("conv.dec", K, [0, sv % Bk], K >= 7 and (K <= 9 or sv < W64 * W64)))
         if K <= 10:
             for sv in srcs + [Bk - 2, (Bk >> 1) + 1]:
                 out.append(("conv.widen", K, [0, sv % Bk], True))
@@ -1401,7 +1439,7 @@ def model_args(v, K, a):
     if v.startswith("nat.") and v.count(".") == 2:
         _, op, ty = v.split(".")
         part, lo, hi, sg, bits = NTYPES[ty]
-        if op in ("cmp", "ctor"):
+        if op in ("cmp", "ctor", "divo"):
             return [1 if sg else 0] + list(a[:2])
         if op == "expw":
             return [bits] + list(a)
@@ -1410,8 +1448,10 @@ def model_args(v, K, a):
         return list(a[:2])
     if v == "nat.consts":
         return [SRC_CONST.get("thirtyonepointfive", 0)]
-    if v == "conv.widen":
+    if v == "conv.widen" or v == "conv.dec":
         return [a[1]]
+    if v in ("inv_mod.abc", "s.inv_mod", "exp_mod.abcn", "norm.d"):
+        return a
     return a
 
 
@@ -1438,6 +1478,10 @@ def build_cases(rng, tier):
                     a = [(1 << (1 << K)) - 1 - i]
                 if info["spec"] == "sub_1" and i < 3:
                     a = [i]
+                if info["spec"] == "inv_mod" and i < 3:       # non-invertible operands on every run: documented result 0
+                    a = [[2, 4], [6, 9], [0, 7]][i]
+                if info["spec"] == "sinv_mod" and i < 2:
+                    a = [[2, 4], [(-6) % (1 << (1 << K)), 9]][i]
                 cases.append((v, K, a))
             for i in range(extra_count(v, info, K, tier)):
                 NO_MODEL.add(len(cases))
@@ -1449,25 +1493,97 @@ def build_cases(rng, tier):
     return cases
 
 
-def run_split(binary, lines, nproc, timeout):
-    """run a line-protocol binary on `lines`, split in nproc interleaved chunks (order restored)"""
+def run_proc(binary, text, wall, cpu=None, env=None):
+    """one run of a line-protocol binary: (rc, stdout lines, stderr, wall_timed_out).  communicate(timeout=..) bounds the wall
+    time; cpu (seconds) is an RLIMIT_CPU on the child (CPU time does not depend on the machine load)."""
+    import resource, subprocess
+
+    def pre():
+        resource.setrlimit(resource.RLIMIT_CPU, (int(cpu), int(cpu) + 10))
+    e = dict(os.environ)
+    if env:
+        e.update(env)
+    p = subprocess.Popen([binary], stdin=subprocess.PIPE, stdout=subprocess.PIPE, stderr=subprocess.PIPE, universal_newlines=True,
+                         errors="replace", env=e, preexec_fn=pre if cpu else None)
+    try:
+        out, err = p.communicate(text, timeout=wall)
+    except subprocess.TimeoutExpired:
+        p.kill()
+        out, err = p.communicate()
+        return 124, (out or "").splitlines(), (err or "") + "[wall time-out after %ss]" % wall, True
+    return p.returncode, out.splitlines(), err, False
+
+
+NO_RETURN = "DOES-NOT-RETURN"
+WD = ("c06_watchdog.h",)       # header shared by the three harness sources (part of their build hash)
+
+
+def run_chunk(binary, lines, wall, restart=True, cpu=None):
+    """run `lines` through the binary.  The C++ harness ends with status 3 after printing DOES-NOT-RETURN when a case exceeds its
+    CPU budget, and dies on a crash: in both cases the case is marked and the binary is restarted on the remaining lines.
+    Returns (outputs (one per line; MISSING where nothing was obtained), status in ok / wall-timeout / cpu-limit / failed, log)."""
+    out, log, pos, status = [], "", 0, "ok"
+    restarts = 0
+    hangs = 0
+    while pos < len(lines):
+        # after the first case over budget the rest of this chunk runs on a short budget, and after four such cases the chunk
+        # stops (the offenders are re-run alone afterwards; they are failing inputs, the verdict does not need the rest)
+        if hangs >= 4:
+            status = "hang-cap"
+            log += "four cases of this chunk did not return within their CPU budget; %d cases not run\n" % (len(lines) - pos)
+            break
+        rc, o, err, timed_out = run_proc(binary, "".join(lines[pos:]), wall, cpu=cpu, env={"C06_CPU_BUDGET": "5"} if hangs else None)
+        o = [l for l in o if not l.startswith("#")]
+        if timed_out:
+            out += o
+            status = "wall-timeout"
+            log += err[-500:]
+            break
+        if rc == 0 and len(o) == len(lines) - pos:
+            out += o
+            break
+        if cpu and rc in (-24, -9, 137, 152):          # SIGXCPU / SIGKILL from RLIMIT_CPU
+            out += o
+            status = "cpu-limit"
+            log += "stream stopped by its CPU limit of %ss after %d lines\n" % (cpu, len(out))
+            break
+        if not restart or restarts > 50 or len(o) > len(lines) - pos:
+            out += o
+            status = "failed"
+            log += "rc=%s, %d/%d lines\n%s\n" % (rc, len(o), len(lines) - pos, err[-1500:])
+            break
+        restarts += 1
+        if rc == 3 and o and o[-1] == NO_RETURN:
+            out += o                                   # the last line belongs to the case that did not return
+            hangs += 1
+        else:
+            out += o + ["CRASHED(rc=%s)" % rc]         # the first case without an output line is the one that crashed
+            log += "case %d crashed the harness (rc=%s): %s\n" % (pos + len(o), rc, lines[pos + len(o)][:300].strip())
+        pos = len(out)
+    out = out[:len(lines)] + ["MISSING"] * (len(lines) - len(out))
+    return out, status, log
+
+
+def run_split(binary, lines, nproc, timeout, restart=True, cpu=None):
+    """run a line-protocol binary on `lines`, split in nproc interleaved chunks (order restored).
+    Returns (status, outputs, log): status is ok, or the worst of wall-timeout / cpu-limit / failed over the chunks."""
     if not lines:
-        return 0, [], ""
+        return "ok", [], ""
     nproc = max(1, min(nproc, len(lines)))
     chunks = [lines[i::nproc] for i in range(nproc)]
     with ThreadPoolExecutor(nproc) as ex:
-        res = list(ex.map(lambda c: vf.run_lines(binary, "".join(c), timeout=timeout), chunks))
+        res = list(ex.map(lambda c: run_chunk(binary, c, timeout, restart=restart, cpu=cpu), chunks))
     out = [None] * len(lines)
-    err = ""
-    rc = 0
-    for i, (r, o, e) in enumerate(res):
-        o = [l for l in o if not l.startswith("#")]
-        if r != 0 or len(o) != len(chunks[i]):
-            rc = r or 1
-            err += "chunk %d: rc=%s, %d/%d lines\n%s\n" % (i, r, len(o), len(chunks[i]), e[-1500:])
-            o = o + ["MISSING"] * (len(chunks[i]) - len(o))
-        out[i::nproc] = o[:len(chunks[i])]
-    return rc, out, err
+    log = ""
+    status = "ok"
+    for i, (o, st, lg) in enumerate(res):
+        if st != "ok":
+            status = st if status == "ok" or st == "failed" else status
+            log += "chunk %d: %s %s\n" % (i, st, lg)
+        elif lg:
+            log += lg
+        out[i::nproc] = o
+    return status, out, log
 
 
 _orig_load_known = vf.load_known
@@ -1545,6 +1661,25 @@ def source_constants(chk, native_bin, drv):
     c31 = comp["thirtyonepointfive"]
     if not (0 <= c31 < 2**32 and 2 * c31 * c31 < 2**64):
         chk.broke("__RECINT_THIRTYONEPOINTFIVE = %d does not satisfy the hypotheses of C06_max_constants_exact (0 <= c < 2^32, 2*c*c < 2^64)" % c31)
+    # three more literals of the model that the source states as expressions: read their text on every run
+    def src_text(rel):
+        try:
+            return re.sub(r"\s+", "", open(os.path.join(vf.REPO, "src/kernel/recint", rel)).read())
+        except OSError:
+            return ""
+    shape = {
+        "reclonglong.h recint__ll_B = 1 << (W_TYPE_SIZE / 2)   [Model.HB = 2^32]":
+            "#definerecint__ll_B((UWtype)1<<(W_TYPE_SIZE/2))" in src_text("reclonglong.h") and "#defineW_TYPE_SIZE64" in src_text("recdefine.h"),
+        "rmgmodule.h Newton loop for (i = 2; i < __RECINT_LIMB_BITS; i <<= 1)   [Model.arazi0: five steps]":
+            "for(size_ti=2;i<__RECINT_LIMB_BITS;i<<=1)" in src_text("rmgmodule.h"),
+        "rudisplay.h char result[(size_t(1) << K) / 3 + 2]   [ModelNative.dec_size = nbits/3 + 2]":
+            "charresult[(size_t(1)<<K)/3+2]" in src_text("rudisplay.h")}
+    chk.cov["source_expressions_the_model_copies"] = shape
+    for what, ok in shape.items():
+        if not ok:
+            # a rewording of the source is not a defect of it: recorded (the value itself is exercised by the correspondence run:
+            # udiv / arazi_qi / conv.dec), and listed so that the model is re-read against the new text
+            chk.notes.append("source text changed where the model copies a literal: " + what)
     # NBLIMB<K> / NBBITS<K> / sizeof of the compiled templates against the model's recursion
     if drv:
         rc2, mo, e2 = vf.run_lines(drv, "".join("sizes %d %d\n" % (K, comp["thr"]) for K in range(6, 13)), timeout=600)
@@ -1603,10 +1738,10 @@ def main(tier, replay=None):
     # 1. proofs + executables, built concurrently (the Coq build dominates)
     with ThreadPoolExecutor(7) as ex:
         f_coq = ex.submit(check_props_parallel, AREA, ("Properties.v", "PropertiesNative.v"), 2400)
-        f_h1 = ex.submit(vf.build_harness, "c06_recint.C", ("-DC06_PART=1",), False, (), 1800, "c06_recint_p1")
-        f_h2 = ex.submit(vf.build_harness, "c06_recint.C", ("-DC06_PART=2",), False, (), 1800, "c06_recint_p2")
-        f_n = [ex.submit(vf.build_harness, "c06_native.C", ("-DC06_NPART=%d" % i,), False, (), 1800, "c06_native_p%d" % i) for i in (1, 2, 3)]
-        f_cv = ex.submit(vf.build_harness, "c06_conv.C", (), False, (), 1800, "c06_conv")
+        f_h1 = ex.submit(vf.build_harness, "c06_recint.C", ("-DC06_PART=1",), False, WD, 1800, "c06_recint_p1")
+        f_h2 = ex.submit(vf.build_harness, "c06_recint.C", ("-DC06_PART=2",), False, WD, 1800, "c06_recint_p2")
+        f_n = [ex.submit(vf.build_harness, "c06_native.C", ("-DC06_NPART=%d" % i,), False, WD, 1800, "c06_native_p%d" % i) for i in (1, 2, 3)]
+        f_cv = ex.submit(vf.build_harness, "c06_conv.C", (), False, WD, 1800, "c06_conv")
         res = f_coq.result()
         h1, l1 = f_h1.result()
         h2, l2 = f_h2.result()
@@ -1621,11 +1756,19 @@ def main(tier, replay=None):
         else:
             chk.proof_result(r1, AREA, pf)
     binaries = {1: h1, 2: h2, 3: hn[0][0], 4: hn[1][0], 5: hn[2][0], 6: hcv}
-    chk.cov["inconclusive_streams"] = inconclusive
     tm["build_coq_and_harness_s"] = round(_time.time() - _t0, 1)
-    drv, l0 = vf.ocaml_build(AREA) if os.path.exists(os.path.join(vf.coq_dir(AREA), "ocaml", "model.ml")) else (None, "extraction did not run")
-    if drv is None:
-        chk.broke("extracted model driver does not build", l0)
+    coq_built = all(r1["ok"] for r1 in res.values())
+    if not coq_built:
+        # model.ml is a product of the Coq build: when that build did not complete, whatever model.ml lies in the tree may be
+        # stale; the correspondence stream is then NOT evaluated (reported as inconclusive / as the broken obligation above)
+        drv, l0 = None, "the Coq build did not complete: the extracted model is not trusted in this run"
+        inconclusive.append("correspondence stream not evaluated: " + l0)
+    else:
+        drv, l0 = vf.ocaml_build(AREA) if os.path.exists(os.path.join(vf.coq_dir(AREA), "ocaml", "model.ml")) else (None, "extraction did not run")
+        if drv is None and "[timeout after" in (l0 or ""):
+            inconclusive.append("compiling the extracted model driver timed out (machine load): correspondence stream not evaluated")
+        elif drv is None:
+            chk.broke("extracted model driver does not build", l0)
     if any(b is None for b in binaries.values()):
         logs = [l1, l2, hn[0][1], hn[1][1], hn[2][1], lcv]
         failed = [(p, l or "") for (p, b), l in zip(sorted(binaries.items()), logs) if b is None]
@@ -1659,28 +1802,74 @@ def main(tier, replay=None):
         futs = {p: ex.submit(run_split, binaries[p], [line(cases[i][0], cases[i][1], cases[i][2]) for i in idx[p]],
                              max(1, ncpu // 3), 2400) for p in binaries}
         for p in binaries:
-            rc, out, err = futs[p].result()
-            if rc != 0:
-                chk.broke("implementation harness part %d failed (a crash or a hang is a failure of the property's operations "
-                          "on one of the generated inputs)" % p, err)
+            st, out, err = futs[p].result()
+            if st == "hang-cap":
+                chk.notes.append("implementation harness part %d: %s" % (p, err.strip()[:300]))
+            elif st in ("wall-timeout", "cpu-limit"):
+                # the whole stream ran out of WALL time (load): inconclusive for the cases without an output; a call that does
+                # not return is caught per case by the CPU watchdog of the harness, not here
+                inconclusive.append("implementation harness part %d: stream %s; %d of %d cases have no output and were not compared"
+                                    % (p, st, sum(1 for x in out if x == "MISSING"), len(out)))
+            elif st != "ok":
+                chk.broke("implementation harness part %d failed" % p, err)
             for j, i in enumerate(idx[p]):
                 iout[i] = out[j]
+    # cases that exceeded the per-case CPU budget: once more, alone, with five times the budget, before they are reported
+    slow = [i for i in range(len(cases)) if iout[i] == NO_RETURN]
+    chk.cov["cases_over_cpu_budget_first_pass"] = len(slow)
+    def rerun(i):
+        v, K, a = cases[i]
+        return i, run_proc(binaries[VARIANTS[v]["part"]], line(v, K, a), 3000, env={"C06_CPU_BUDGET": "150"})
+    confirmed = set()
+    if slow:
+        with ThreadPoolExecutor(4) as ex:
+            for i, (rc1, o1, e1, to1) in ex.map(rerun, slow[:4]):      # at most four are re-run (150 s of CPU each, side by side)
+                v, K, a = cases[i]
+                o1 = [l for l in o1 if not l.startswith("#")]
+                if to1:
+                    iout[i] = "MISSING"
+                    inconclusive.append("re-run of %s K=%d alone timed out on the wall clock: not classified" % (v, K))
+                elif o1 and o1[-1] != NO_RETURN and rc1 == 0:
+                    iout[i] = o1[-1]
+                    chk.notes.append("slow case (over 30 s CPU, returned within 150 s): %s K=%d" % (v, K))
+                else:
+                    confirmed.add(i)
+        if not confirmed:
+            for i in slow[4:]:
+                iout[i] = "MISSING"          # nothing confirmed: the others are unclassified, not failures
     tm["implementation_run_s"] = round(_time.time() - _t0, 1)
     midx = [i for i, (v, K, a) in enumerate(cases) if VARIANTS[v]["model"] and i not in NO_MODEL]
     mout = {}
     if drv:
-        rc, out, err = run_split(drv, [line(VARIANTS[cases[i][0]]["model"], cases[i][1], model_args(*cases[i])) for i in midx], ncpu, 3000)
-        if rc == 124 or "[timeout]" in (err or ""):
-            inconclusive.append("the extracted model driver timed out (machine load): correspondence stream not evaluated in this run")
-            chk.notes.append("INCONCLUSIVE: " + inconclusive[-1])
-        elif rc != 0:
+        st, out, err = run_split(drv, [line(VARIANTS[cases[i][0]]["model"], cases[i][1], model_args(*cases[i])) for i in midx], ncpu, 3000,
+                                 restart=False, cpu=2400)
+        if st in ("wall-timeout", "cpu-limit"):
+            inconclusive.append("the extracted model driver: stream %s; %d of %d model results are missing and those cases were not "
+                                "compared with the model" % (st, sum(1 for x in out if x == "MISSING"), len(out)))
+            mout = {i: o for i, o in zip(midx, out) if o != "MISSING"}
+        elif st != "ok":
             chk.broke("model driver failed", err)
         else:
             mout = dict(zip(midx, out))
+    # the python mirror that labels the quotient-correction branches (evidence only) is itself tied to the model: the traced limb
+    # div_3_2 of ModelAudit.v (proved to return Model.div32_0's result) reports how many corrections it took
+    if drv:
+        d32 = [cases[i][2] for i in range(len(cases)) if VARIANTS[cases[i][0]]["spec"] == "div32" and cases[i][1] == 6
+               and oracle("div32", 6, cases[i][2]) is not None]
+        st, o, e = run_split(drv, ["div32_tr 6 %d %s\n" % (thr, " ".join(fmt_arg(x) for x in a)) for a in d32], 2, 900, restart=False, cpu=600)
+        if st == "ok":
+            bad = [(a, l) for a, l in zip(d32, o) if tok(l) != "%x" % d32_corrections(1 << 64, *a)]
+            chk.cov["div_3_2_limb_corrections_by_model_trace"] = {str(n): sum(1 for l in o if tok(l) == "%x" % n) for n in (0, 1, 2)}
+            if bad:
+                chk.broke("the branch-accounting mirror d32_corrections disagrees with the model's traced div_3_2 on %s: model %s"
+                          % ([fmt_arg(x) for x in bad[0][0]], bad[0][1]))
+        else:
+            inconclusive.append("model trace of the div_3_2 corrections: stream " + st)
     tm["model_run_s"] = round(_time.time() - _t0, 1)
     # 3. three-way comparison
     ncorr = 0
     nspec = 0
+    n_missing = 0
     dist = {}
     hits = {}
     for i, (v, K, a) in enumerate(cases):
@@ -1700,6 +1889,16 @@ def main(tier, replay=None):
             chk.sample({"variant": v, "K": K, "args": [fmt_arg(x) for x in a], "impl": iout[i], "spec": exp})
         case = {"variant": v, "K": K, "args": [fmt_arg(x) for x in a]}
         bad_spec = False
+        if iout[i] == "MISSING":
+            n_missing += 1                     # no output because of a tooling time-out: not compared, counted against the floor
+            continue
+        if iout[i] == NO_RETURN or (iout[i] or "").startswith("CRASHED("):
+            chk.fail_input(site_of(v, spec), "does-not-return" if iout[i] == NO_RETURN else "crash", case, exp, iout[i],
+                           ("the call did not return within 150 s of CPU time (run alone)" if i in confirmed else
+                            "the call did not return within its CPU budget (30 s, or 5 s after an earlier case of the stream had not returned); "
+                            "other cases of this run were confirmed alone with 150 s") if iout[i] == NO_RETURN else
+                           "the call crashed the harness process")
+            continue
         if exp is not None:
             nspec += 1
             if got != exp or extra:
@@ -1731,6 +1930,23 @@ def main(tier, replay=None):
     chk.cov["rule"] = ("every call form (variant) x K=6..11 x operands with limbs from {0,1,2^63,2^64-1,random} / boundary values / "
                        "division-directed (a = q*b + r, divisors 100..0|11..1) / shift counts around 0,1,64,2^(K-1),2^K,2^(K+1),2^64-1; "
                        "non-trivial = some operand > 1; distinct = (variant,K,operands)")
+    # FLOOR on what was actually compared: an inconclusive stream never counts as a pass of that stream
+    planned_spec = sum(1 for (v, K, a) in cases if oracle(VARIANTS[v]["spec"], K, a) is not None)
+    planned_corr = len([i for i in midx if not (VARIANTS[cases[i][0]]["spec"].startswith("nat:") and oracle(VARIANTS[cases[i][0]]["spec"], cases[i][1], cases[i][2]) is None)])
+    floor = {"oracle_comparisons": max(int(0.98 * planned_spec), 40000 if tier == "quick" and not replay else 0),
+             "correspondence_comparisons": max(int(0.95 * planned_corr), 35000 if tier == "quick" and not replay else 0),
+             "theorems_rechecked": sum(len(r1["theorems"]) for r1 in res.values())}
+    done = {"oracle_comparisons": nspec, "correspondence_comparisons": ncorr + len(chk.failing), "theorems_rechecked": chk.cov["discharged"]}
+    missed = ["%s: %d < floor %d" % (k, done[k], floor[k]) for k in floor if done[k] < floor[k]]
+    chk.cov["floor"] = floor
+    chk.cov["compared"] = done
+    chk.cov["cases_without_output"] = n_missing
+    chk.cov["inconclusive"] = inconclusive
+    chk.cov["floor_missed"] = missed
+    if missed or inconclusive:
+        chk.notes.append("INCONCLUSIVE RUN: %s; floor missed: %s.  The streams named here were NOT evaluated and do not count as passed."
+                         % ("; ".join(inconclusive) or "-", "; ".join(missed) or "-"))
+        print("INCONCLUSIVE: property=C06 " + ("; ".join(inconclusive + missed))[:600])
     chk.cov["traces_validated_against_impl"] = ncorr
     chk.cov["cases_checked_against_spec_oracle"] = nspec
     chk.cov["variants"] = len(VARIANTS)
